@@ -63,7 +63,8 @@ def main():
                     break
         elif op == 'recuntil':
             mark = bytes.fromhex(a[1])
-            while bytes(recorded[-len(mark):]) != mark:
+            start = len(recorded)
+            while len(recorded) - start < len(mark) or bytes(recorded[-len(mark):]) != mark:
                 if not readsome():
                     break
         elif op == 'receof':
